@@ -67,6 +67,31 @@ lyd_ctx_free(struct lyd_ctx *lydctx)
     lyd_val_getnext_ht_free(lydctx->val_getnext_ht);
 }
 
+void
+lyd_parser_unres_count(const struct lyd_ctx *lydctx, struct lyd_ctx_unres_count *count)
+{
+    count->node_when = lydctx->node_when.count;
+    count->node_types = lydctx->node_types.count;
+    count->meta_types = lydctx->meta_types.count;
+    count->ext_node = lydctx->ext_node.count;
+    count->ext_val = lydctx->ext_val.count;
+}
+
+void
+lyd_parser_unres_trim(struct lyd_ctx *lydctx, const struct lyd_ctx_unres_count *count)
+{
+    /* items are only added when parsing so all the items of the freed data are at the end */
+    lydctx->node_when.count = count->node_when;
+    lydctx->node_types.count = count->node_types;
+    lydctx->meta_types.count = count->meta_types;
+    while (lydctx->ext_node.count > count->ext_node) {
+        ly_set_rm_index(&lydctx->ext_node, lydctx->ext_node.count - 1, free);
+    }
+    while (lydctx->ext_val.count > count->ext_val) {
+        ly_set_rm_index(&lydctx->ext_val, lydctx->ext_val.count - 1, free);
+    }
+}
+
 LY_ERR
 lyd_parser_notif_eventtime_validate(const struct lyd_node *node)
 {
